@@ -379,6 +379,9 @@ def schema_trees(tier, rng=None):
     add("cond_cycle_two_records", rec("a.Node", [("children", arr(rec("a.Edge", [("target", ref("a.Node")), ("w", prim("int"))])))]))
     add("cond_cycle_map", rec("a.P", [("m", mp(rec("a.Q", [("p", ref("a.P")), ("q", un(prim("null"), ref("a.Q")))])))]))
     add("union_sibling_ref", un(rec("a.A1", [("x", prim("int"))]), rec("a.B1", [("a", ref("a.A1")), ("b", un(prim("null"), ref("a.B1")))])))
+    add("thrice_same_record", rec("a.Segment", [("from", rec("a.Point", [("x", prim("int")), ("y", prim("int"))])), ("via", ref("a.Point")), ("to", ref("a.Point")),
+                                                 ("more", rec("a.Leg", [("p", ref("a.Point")), ("q", ref("a.Point"))]))]))
+    add("enum_no_symbols", rec("a.HE", [("n", prim("int")), ("e", un(prim("null"), enum("a.E0", []))), ("f", arr(ref("a.E0")))]))
     add("fixed_size_zero", rec("a.HZ", [("z", fixed("a.Z0", 0)), ("y", arr(ref("a.Z0")))]))
     add("fwd_in_map", rec("a.T", [("x", arr(prim("long"))), ("m", mp(enum("a.E", ["S"]))), ("n", mp(un(prim("null"), fixed("a.F", 2)))), ("e", ref("a.E")), ("f", ref("a.F"))]))
     add("fwd_two_types", rec("T", [("a", rec("A", [("x", mp(prim("string")))])), ("b", arr(fixed("F", 3))), ("c", ref("F")), ("d", un(prim("null"), enum("E", ["Q"]))),
